@@ -1,3 +1,3 @@
 #!/bin/bash
-# lane.sh <seed ids...>: try seeds one after the other from the isolated snapshot (VERIF_HOME), log to /var/tmp/osv/lanes.log
-for s in "$@"; do VERIF_HOME=${VERIF_HOME:-/verif} /verif/tools/try_seed.py $s quick 2>&1 | grep -v WARNING | cut -c1-700 >> /var/tmp/osv/lanes.log; done
+# lane.sh <seed ids...>: try seeds one after the other from the isolated snapshot (VERIF_HOME), log to ${LLOG:-/var/tmp/osv/lanes.log}
+for s in "$@"; do VERIF_HOME=${VERIF_HOME:-/verif} /verif/tools/try_seed.py $s quick 2>&1 | grep -v WARNING | cut -c1-700 >> ${LLOG:-/var/tmp/osv/lanes.log}; done
